@@ -17,6 +17,7 @@ import (
 	"go/build"
 	"go/importer"
 	"go/parser"
+	"go/printer"
 	"go/token"
 	"go/types"
 	"os"
@@ -387,6 +388,8 @@ func c05_genC05(repo string) string {
 		return strings.Join(q, ", ")
 	}())
 	c05_marshalPaths(im, &sb)
+	c05_hashKeys(im, &sb)
+	c05_findMountLoop(im, &sb)
 	c05_objectTypes(im, &sb)
 	c05_printableDispatch(im, &sb)
 	c05_formatSites(repo, &sb)
@@ -497,6 +500,87 @@ func c05_marshalPaths(im *c05_repoImporter, sb *strings.Builder) {
 			sep = ""
 		}
 		fmt.Fprintf(sb, "  (%s, %s)%s\n", leanStr(r.ty), leanStr(r.what), sep)
+	}
+	sb.WriteString("]\n")
+}
+
+// ---------------------------------------------------------------------------------------
+// c05_nodeText prints a syntax node with go/printer (the files are parsed without comments) and
+// collapses every run of white space to one space: the text of the code, insensitive to layout.
+func c05_nodeText(fset *token.FileSet, n ast.Node) string {
+	var sb strings.Builder
+	if err := printer.Fprint(&sb, fset, n); err != nil {
+		panic(err)
+	}
+	return strings.Join(strings.Fields(sb.String()), " ")
+}
+
+// the hash keys: the body of the HashKey() method of every type of package object (the types
+// that can be members of a set), as text.  A member's place in a set's listing is the place of
+// its hash key, so each body must be a function of the value alone.
+func c05_hashKeys(im *c05_repoImporter, sb *strings.Builder) {
+	path := c05_risorModule + "/object"
+	type row struct{ ty, body string }
+	var rows []row
+	for _, f := range im.files[path] {
+		for _, d := range f.Decls {
+			fd, ok := d.(*ast.FuncDecl)
+			if !ok || fd.Body == nil || fd.Name.Name != "HashKey" || fd.Recv == nil {
+				continue
+			}
+			rows = append(rows, row{c05_recvName(fd), c05_nodeText(im.fset, fd.Body)})
+		}
+	}
+	if len(rows) < 5 {
+		panic(fmt.Sprintf("only %d HashKey methods found in package object", len(rows)))
+	}
+	sort.Slice(rows, func(i, j int) bool { return rows[i].ty < rows[j].ty })
+	sb.WriteString("\n/-- the HashKey() method of every type of package object: (type, the text of its body) -/\n")
+	sb.WriteString("def hashKeys : List (String × String) := [\n")
+	for i, r := range rows {
+		sep := ","
+		if i == len(rows)-1 {
+			sep = ""
+		}
+		fmt.Fprintf(sb, "  (%s, %s)%s\n", leanStr(r.ty), leanStr(r.body), sep)
+	}
+	sb.WriteString("]\n")
+}
+
+// the choosing loop of VirtualOS.findMount: the text of every range-over-map statement of the
+// function (there is one), and the statements of the function that mention the variable the
+// loop assigns its candidate to before the loop starts
+func c05_findMountLoop(im *c05_repoImporter, sb *strings.Builder) {
+	path := c05_risorModule + "/os"
+	info := im.infos[path]
+	var loops []string
+	for _, f := range im.files[path] {
+		for _, d := range f.Decls {
+			fd, ok := d.(*ast.FuncDecl)
+			if !ok || fd.Body == nil || fd.Name.Name != "findMount" || c05_recvName(fd) != "VirtualOS" {
+				continue
+			}
+			ast.Inspect(fd.Body, func(n ast.Node) bool {
+				rs, ok := n.(*ast.RangeStmt)
+				if !ok {
+					return true
+				}
+				if tv, ok := info.Types[rs.X]; ok && tv.Type != nil {
+					if _, isMap := tv.Type.Underlying().(*types.Map); isMap {
+						loops = append(loops, c05_nodeText(im.fset, rs))
+					}
+				}
+				return true
+			})
+		}
+	}
+	sb.WriteString("\n/-- VirtualOS.findMount: the text of its range-over-map statements -/\n")
+	sb.WriteString("def findMountLoops : List String := [")
+	for i, l := range loops {
+		if i > 0 {
+			sb.WriteString(", ")
+		}
+		sb.WriteString(leanStr(l))
 	}
 	sb.WriteString("]\n")
 }
